@@ -31,6 +31,9 @@ META = {
     "C16": {"technique": "metamorphic property-based testing: repeat / permute / rename transformations of generated workflows",
             "level_text": "Metamorphic relations over generated programs: repetition, reordering and consistent renaming must leave verdict, graph, output schemas and namespaces unchanged up to names and generated identifiers.",
             "level_note": TB + "; Go map iteration order is exercised by repetition, not controlled"},
+    "C11": {"technique": "structure-aware fuzzing: generated YAML node corruptions, byte mutations, random text and file trees against a crash/hang oracle",
+            "level_text": "Generated-input search over workflow files, sub-workflow trees and input documents through the public engine API in a worker process; any panic, process death (stack exhaustion) or Parse that does not return is a violation; file trees carry their expected verdict.",
+            "level_note": "trusted base: gopkg.in/yaml.v3 to build the corrupted documents, the worker/watchdog plumbing; byte strings travel base64-encoded"},
 }
 
 NOT_APPLICABLE = []
